@@ -827,6 +827,13 @@ func (c *c08Run) runBatch(m *c08Module, pkgs []*c08Pkg, tag string, depth int) {
 					c.runBatch(m, []*c08Pkg{p}, fmt.Sprintf("%s-retry-%s", tag, strings.ReplaceAll(p.Dir, "/", "_")), depth+1)
 					continue
 				}
+				if strings.Contains(iv.res.Stderr, "package uses multiple ffis") {
+					// this batch holds only packages whose import graph reaches at most one FFI (by construction,
+					// cross-checked with go list): the refusal reserved for two FFIs is wrong here
+					c.violate("one-ffi-package-refused-as-multiple-ffis", fmt.Sprintf("package %s reaches the FFIs %v (reference walk of its import graph) but goose refuses it: %s", p.importPath, refFfis(m.generatedGraph(), p.importPath), firstLines(iv.res.Stderr, 2)), v)
+					c.judged(p, v)
+					continue
+				}
 				// the generated package itself did not translate: says nothing about headers
 				r.Inconclusive("generated-package-did-not-translate")
 				r.Set("untranslated_example", map[string]interface{}{"package": p.importPath, "command": iv.cmdline(), "stderr": clip(iv.res.Stderr, 1500)})
